@@ -160,7 +160,7 @@ func (e *Exec) ensureDecls(t *Term) {
 	walk(t)
 	for _, f := range pending {
 		e.ensureDecls(f)
-		e.sol.Assert(f)
+		e.sol.AssertAxiom(f)
 	}
 }
 
@@ -320,10 +320,20 @@ func skolemsOf(g *Term) []*Term {
 func (e *Exec) prove(st *State, o *Oblig, goal *Term, gsks []*Term) CheckResult {
 	s := e.sol
 	t0 := time.Now()
+	full := s.timeout
+	// the live solver either answers at once or not at all: short limits for its
+	// two attempts, the full limit for the stand-alone fall-backs
+	if full > 2000 {
+		s.timeout = 2000
+	}
+	defer func() { s.timeout = full }()
 	cr, script := s.primary(goal)
 	if cr.Res == "unsat" {
 		cr.Secs = time.Since(t0).Seconds()
 		return cr
+	}
+	if full > 3000 {
+		s.timeout = 3000
 	}
 	if o.Failed+o.Undec > 0 {
 		// the obligation has already failed on another path: one attempt only
@@ -333,22 +343,39 @@ func (e *Exec) prove(st *State, o *Oblig, goal *Term, gsks []*Term) CheckResult 
 	}
 	pushed := false
 	sks := skolemsOf(goal)
-	cands := e.candidates(st, sks)
-	goal2 := goal
-	if len(cands) > 0 {
-		goal2 = strengthen(goal, true, cands, 0)
-		e.ensureDecls(goal2)
+	// index terms at which the quantified hypotheses of the path are
+	// instantiated: the skolem constants of the goal, 0 and 1 (first elements: the
+	// solver's patterns contain offset + k, which does not match offset itself),
+	// and the integer registers of the current frames
+	at := append([]*Term{}, sks...)
+	for _, k := range sks {
+		if len(sks) <= 3 {
+			at = append(at, Add(k, IntLit(1)), Sub(k, IntLit(1)))
+		}
 	}
-	if len(sks) > 0 || goal2 != goal {
-		insts := s.instancesAt(sks)
-		if len(insts) > 0 || goal2 != goal {
-			goal = goal2
+	at = append(at, IntLit(0), IntLit(1))
+	for _, c := range e.candidates(st, nil) {
+		if len(at) < 20 {
+			at = append(at, c)
+		}
+	}
+	insts := s.instancesAt(at)
+	hasEx := hasQuant(goal, map[*Term]bool{})
+	if len(insts) > 0 || hasEx {
+		{
 			e.push()
 			pushed = true
 			for _, x := range insts {
-				e.assumeRaw(x)
+				e.assumeRaw(x) // existentials of the instances become witnesses
+			}
+			if cands := e.candidates(st, sks); len(cands) > 0 && hasEx {
+				goal = strengthen(goal, true, cands, 0)
+				e.ensureDecls(goal)
 			}
 			cr2, script2 := s.primary(goal)
+			if pat := os.Getenv("GOVC_DUMP_PROVED"); pat != "" && cr2.Res == "unsat" && strings.Contains(o.Name, pat) {
+				os.WriteFile("/var/tmp/proved.smt2", []byte(s.Script("(assert (not "+goal.String()+"))")), 0o644)
+			}
 			if cr2.Res == "unsat" {
 				e.pop()
 				cr2.By = "z3-new+inst"
@@ -358,6 +385,7 @@ func (e *Exec) prove(st *State, o *Oblig, goal *Term, gsks []*Term) CheckResult 
 			cr, script = cr2, script2
 		}
 	}
+	s.timeout = full
 	if cr.Res == "unknown" || cr.Res == "error" {
 		cr = s.fallbacks(script, cr)
 	}
